@@ -143,6 +143,61 @@ def _t_logging(srcs):
                 n.body[k:k] = ast.parse("_verif_logger.debug('entering %%s', %r)\n" % n.name).body
 
 
+def _t_traced(srcs):
+    """a transparent decorator (`*args, **kwargs` forwarded verbatim, a logger call before) on every top-level function and method"""
+    import ast
+    for tree in srcs.values():
+        k = 0
+        while k < len(tree.body) and (isinstance(tree.body[k], ast.Expr) and isinstance(getattr(tree.body[k], "value", None), ast.Constant)
+                                       or isinstance(tree.body[k], ast.ImportFrom) and tree.body[k].module == "__future__"):
+            k += 1
+        tree.body[k:k] = ast.parse(
+            "import functools as _verif_functools\nimport logging as _verif_logging\n"
+            "def _verif_traced(fun):\n"
+            "    @_verif_functools.wraps(fun)\n"
+            "    def wrapper(*args, **kwargs):\n"
+            "        _verif_logging.getLogger(__name__).debug('call of %s', fun.__name__)\n"
+            "        return fun(*args, **kwargs)\n"
+            "    return wrapper\n").body
+        for n in tree.body:
+            if isinstance(n, ast.FunctionDef) and n.name != "_verif_traced" and not n.decorator_list:
+                n.decorator_list = [ast.Name("_verif_traced", ast.Load())]
+            elif isinstance(n, ast.ClassDef):
+                for m in n.body:
+                    if isinstance(m, ast.FunctionDef) and not m.decorator_list:
+                        m.decorator_list = [ast.Name("_verif_traced", ast.Load())]
+
+
+def _t_shim(srcs):
+    """a (correct) keyword-only deprecation shim on every top-level function with at least two defaulted trailing parameters:
+    positional use of those still works and is forwarded by keyword"""
+    import ast
+    for tree in srcs.values():
+        k = 0
+        while k < len(tree.body) and (isinstance(tree.body[k], ast.Expr) and isinstance(getattr(tree.body[k], "value", None), ast.Constant)
+                                       or isinstance(tree.body[k], ast.ImportFrom) and tree.body[k].module == "__future__"):
+            k += 1
+        tree.body[k:k] = ast.parse(
+            "import functools as _verif_functools\nimport warnings as _verif_warnings\n"
+            "def _verif_keyword_only(*names):\n"
+            "    def decorator(fun):\n"
+            "        n_positional = fun.__code__.co_argcount - len(names)\n"
+            "        @_verif_functools.wraps(fun)\n"
+            "        def wrapper(*args, **kwargs):\n"
+            "            extra = len(args) - n_positional\n"
+            "            if extra > 0:\n"
+            "                _verif_warnings.warn('pass %s by keyword' % (names[:extra],), DeprecationWarning, stacklevel=2)\n"
+            "                kwargs.update(zip(names, args[n_positional:]))\n"
+            "                args = args[:n_positional]\n"
+            "            return fun(*args, **kwargs)\n"
+            "        return wrapper\n"
+            "    return decorator\n").body
+        for n in tree.body:
+            if isinstance(n, ast.FunctionDef) and not n.decorator_list and len(n.args.defaults) >= 2 and not n.args.vararg and not n.args.kwarg and not n.args.kwonlyargs:
+                names = [a.arg for a in n.args.args[-2:]]
+                n.decorator_list = [ast.Call(ast.Name("_verif_keyword_only", ast.Load()), [ast.Constant(x) for x in names], [])]
+
+
 def _t_coerce_params(srcs):
     """input coercion at function entry: every function of sempler/utils.py and the model constructors / methods whose first
     parameter is a matrix (A, G, P, W, pdag, graph) starts with `X = np.asarray(X)` - the identity for ndarray arguments"""
@@ -216,7 +271,8 @@ def _t_accept_lists(srcs):
                         n.body[k:k] = ast.parse("if not isinstance(%s, np.ndarray):\n    %s = np.array(%s)\n" % (a.arg, a.arg, a.arg)).body
 
 
-TREE_TRANSFORMS = {"@coerce_params": _t_coerce_params, "@accept_lists": _t_accept_lists, "@early_exit": _t_early_exit, "@numpy_alias": _t_numpy_alias, "@kwargs_calls": _t_kwargs_calls, "@strip_docs_annotate": _t_strip_docs_annotate, "@logging": _t_logging}
+TREE_TRANSFORMS = {"@coerce_params": _t_coerce_params, "@accept_lists": _t_accept_lists, "@early_exit": _t_early_exit, "@numpy_alias": _t_numpy_alias, "@kwargs_calls": _t_kwargs_calls, "@strip_docs_annotate": _t_strip_docs_annotate, "@logging": _t_logging, "@traced": _t_traced,
+                   "@shim": _t_shim}
 
 
 def rename_locals(path, qual):
